@@ -162,6 +162,7 @@ class FakeWriter:
         self.write_exc = None
         self.drain_exc = None
         self.held = False
+        self.yielding = False  # drain() suspends for one loop iteration (a transport above its high-water mark)
         self.pending = []  # futures of held drains
 
     def write(self, data):
@@ -178,6 +179,8 @@ class FakeWriter:
             fut = self.loop.create_future()
             self.pending.append(fut)
             await fut
+        elif self.yielding:
+            await asyncio.sleep(0)
 
     def close(self):
         self.closed = True
@@ -318,7 +321,8 @@ class FakeTCP:
 
 
 class Net:
-    def __init__(self, loop=None):
+    def __init__(self, loop=None, yield_drains=False):
+        self.yield_drains = yield_drains
         from indi.routing import Router
         from indi.transport.server import tcp as server_tcp
 
@@ -330,6 +334,7 @@ class Net:
 
     def open_server_link(self, frag_c2s=None, frag_s2c=None, drain=True):
         link = Link(self.loop, frag_c2s, frag_s2c)
+        link.a_writer.yielding = link.b_writer.yielding = self.yield_drains
         handler_func = self.server_tcp.ConnectionHandler.handler(self.router)
         link.server_task = self.loop.create_task(handler_func(link.b_reader, link.b_writer))
         link.net = self
